@@ -156,7 +156,11 @@ func partsHaveFor(parts []ast.TPart) bool {
 // splat only) have keys that are variables or small expressions.
 func drawSplatTail(t *rapid.T, g *gen.EG, sc *gen.Scope) ast.Node {
 	full := rapid.IntRange(0, 3).Draw(t, "full") > 0
-	var src ast.Node = ast.Var{Name: rapid.SampledFrom(sc.Names).Draw(t, "tail_src")}
+	names := sc.Names
+	if len(names) == 0 {
+		names = []string{"undefined_a", "undefined_b"} // an empty scope: the references are still reported
+	}
+	var src ast.Node = ast.Var{Name: rapid.SampledFrom(names).Draw(t, "tail_src")}
 	if rapid.IntRange(0, 3).Draw(t, "src_expr") == 0 {
 		src = g.Expr(cty.DynamicPseudoType)
 	}
@@ -167,7 +171,7 @@ func drawSplatTail(t *rapid.T, g *gen.EG, sc *gen.Scope) ast.Node {
 		case 1:
 			return ast.Template{Parts: []ast.TPart{ast.TLit{Text: "k"}}}
 		case 2, 3:
-			return ast.Var{Name: rapid.SampledFrom(sc.Names).Draw(t, "key_var")}
+			return ast.Var{Name: rapid.SampledFrom(names).Draw(t, "key_var")}
 		default:
 			return g.Expr(rapid.SampledFrom([]cty.Type{cty.Number, cty.String}).Draw(t, "key_type"))
 		}
